@@ -271,14 +271,29 @@ def check_tree(ctx, u, lab, m):
         ctx.ok(R, lab + '|shared-visitor', vw, 'shared traversal', nontrivial=False)
         return _check_r5(ctx, u, lab, m, ln, dn, calls)
     a, b = skeleton(wi), skeleton(ex)
-    ctx.check(a == b, R, lab + '|within==exists(range)', ex, 'identical traversal', 'within and exists(low, high) differ: %s' % [p for p in zip(a, b) if p[0] != p[1]][:2])
+    if a != b:
+        # written differently: they still agree when each of them meets the range-search rules of R1 on
+        # its own (visit-before, visit-after, children, half-open box all discharged, none undecided)
+        need_ = ['%s|%s|%s' % (lab, fn_, k_) for fn_ in ('within', 'exists') for k_ in ('visit-before', 'visit-after', 'children', 'half-open-box')]
+        have_ = {o.key for o in ctx.obs if o.rule == 'C13-R1' and o.ok}
+        if all(k_ in have_ for k_ in need_):
+            ctx.ok(R, lab + '|within==exists(range)', ex, 'the two traversals are written differently; each meets the pruning and box rules of C13-R1 on its own, hence they visit and accept the same nodes')
+        elif any(o.rule == 'C13-R1' and not o.ok and o.key in need_ for o in ctx.obs):
+            ctx.bad(R, lab + '|within==exists(range)', ex, 'within and exists(low, high) differ and one of them breaks a range-search rule of C13-R1: %s' % [p for p in zip(a, b) if p[0] != p[1]][:2])
+        else:
+            ctx.undecided(R, lab + '|within==exists(range)', ex, 'within and exists(low, high) are written differently and C13-R1 could not decide both on their own')
+    else:
+        ctx.ok(R, lab + '|within==exists(range)', ex, 'identical traversal')
     hit_w = [x for x in walk(body_of(wi)) if x.get('kind') == 'CXXMemberCallExpr' and call_name(x) == 'emplace_back' and canon(member_call_object(x)) == 'ret']
     hit_e = [x for x in walk(body_of(ex)) if x.get('kind') == 'ReturnStmt' and kids(x) and int_value(kids(x)[0]) == 1]
     okh = len(hit_w) == 1 and len(hit_e) == 1 and [nf(f_.cond) for f_ in path_facts(hit_w[0])] == [nf(f_.cond) for f_ in path_facts(hit_e[0])]
     if not hit_w or not hit_e:
         ctx.undecided(R, lab + '|hit-action', wi, 'within / exists(range) do not contain their own hit sites (shared visitor): agreement not decided by this rule')
     else:
-      ctx.check(okh, R, lab + '|hit-action', hit_w[0] if hit_w else wi, 'collect vs return true under the same condition', 'the hit conditions of within and exists(range) differ')
+      if not okh and all(any(o.rule == 'C13-R1' and o.ok and o.key == '%s|%s|half-open-box' % (lab, fn_) for o in ctx.obs) for fn_ in ('within', 'exists')):
+          ctx.ok(R, lab + '|hit-action', hit_w[0], 'the hit conditions are written differently; each is the half-open box test of C13-R1')
+      else:
+          ctx.check(okh, R, lab + '|hit-action', hit_w[0] if hit_w else wi, 'collect vs return true under the same condition', 'the hit conditions of within and exists(range) differ')
     rw = [x for x in walk(body_of(wi)) if x.get('kind') == 'ReturnStmt']
     re_ = [x for x in walk(body_of(ex)) if x.get('kind') == 'ReturnStmt' and int_value(kids(x)[0]) == 0]
     okr = len(rw) == 2 and len(re_) == 2 and any(f_.origin is not None and 'this.root' in nf(f_.cond) for f_ in path_facts(rw[0])) and not any(t.get('kind') == 'CXXThrowExpr' for t in walk(body_of(wi)))
@@ -290,22 +305,47 @@ def check_tree(ctx, u, lab, m):
 def _check_r5(ctx, u, lab, m, ln, dn, calls):
     # ---------------- R5
     R = 'C13-R5'
-    slot_descent = any(v.get('kind') == 'VarDecl' and '**' in (qtype(v) or '').replace(' ', '') and kids(v) and 'this.root' in canon(kids(v)[-1]) for v in walk(body_of(ln)))
-    incs = [x for x in walk(body_of(ln)) if x.get('kind') == 'UnaryOperator' and x.get('opcode') == '++' and canon(x['inner'][0]) == 'this.node_count']
-    links = [x for x in walk(body_of(ln)) if x.get('kind') == 'BinaryOperator' and x.get('opcode') == '=' and canon(x['inner'][0]) in ('this.root', 'n.before', 'n.after_or_equal') and canon(x['inner'][1]) == 'new_node']
-    okc = len(incs) == 3 and len(links) == 3 and all(enclosing(i_, ('CompoundStmt',)) is enclosing(l_, ('CompoundStmt',)) for i_, l_ in zip(sorted(incs, key=lambda z: z['_off']), sorted(links, key=lambda z: z['_off'])))
-    if not links and len(incs) == 1 and slot_descent:
-        # one link site through the slot pointer, one increment in the same block
-        sl = [x for x in walk(body_of(ln)) if x.get('kind') == 'BinaryOperator' and x.get('opcode') == '=' and strip(x['inner'][0]).get('kind') == 'UnaryOperator' and strip(x['inner'][0]).get('opcode') == '*' and canon(x['inner'][1]) == 'new_node']
-        ctx.check(len(sl) == 1 and enclosing(sl[0], ('CompoundStmt',)) is enclosing(incs[0], ('CompoundStmt',)), R, lab + '|link_node|count', ln, 'node_count++ next to the single link site', 'node_count++ is not paired with the link through the slot pointer')
-    else:
-      ctx.check(okc, R, lab + '|link_node|count', ln, 'node_count++ next to each of the three link sites', 'node_count++ is not paired with every link site (%d increments, %d links)' % (len(incs), len(links)))
-    par = [x for x in walk(body_of(ln)) if x.get('kind') == 'BinaryOperator' and x.get('opcode') == '=' and canon(x['inner'][0]) == 'new_node.parent']
-    dims = [nf(x['inner'][1]) for x in walk(body_of(ln)) if x.get('kind') == 'BinaryOperator' and x.get('opcode') == '=' and canon(x['inner'][0]) == 'new_node.dim']
+    # link sites: an assignment of the node being linked to the root, to a child slot of the current
+    # node, or through a pointer / reference that designates such a slot; each one is counted once
+    newp = params_of(ln)[0]
+    lbody_ = body_of(ln)
+    slot_vars = {}
+    for v in walk(lbody_):
+        if v.get('kind') == 'VarDecl' and kids(v):
+            qt_ = (qtype(v) or '').replace(' ', '')
+            if ('**' in qt_ or qt_.endswith('*&')) and any(y.get('kind') == 'MemberExpr' and y.get('name') in ('before', 'after_or_equal', 'root') for y in walk(kids(v)[-1])):
+                slot_vars[v['id']] = v
+    slot_descent = bool(slot_vars)
+
+    def is_slot(lhs):
+        l0 = strip(lhs)
+        if l0.get('kind') == 'MemberExpr' and l0.get('name') in ('before', 'after_or_equal', 'root'):
+            return True
+        if l0.get('kind') == 'UnaryOperator' and l0.get('opcode') == '*' and (ref_decl(l0['inner'][0]) or {}).get('id') in slot_vars:
+            return True
+        return l0.get('kind') == 'DeclRefExpr' and (ref_decl(l0) or {}).get('id') in slot_vars
+    incs = [x for x in walk(lbody_) if (x.get('kind') == 'UnaryOperator' and x.get('opcode') == '++' and canon(x['inner'][0]) == 'this.node_count') or
+            (x.get('kind') == 'CompoundAssignOperator' and x.get('opcode') == '+=' and canon(x['inner'][0]) == 'this.node_count' and int_value(x['inner'][1]) == 1)]
+    links = [x for x in walk(lbody_) if x.get('kind') == 'BinaryOperator' and x.get('opcode') == '=' and (ref_decl(x['inner'][1]) or {}).get('id') == newp['id'] and is_slot(x['inner'][0])]
+    okc = len(links) >= 1 and len(incs) == len(links) and all(enclosing(i_, ('CompoundStmt',)) is enclosing(l_, ('CompoundStmt',)) for i_, l_ in zip(sorted(incs, key=lambda z: z['_off']), sorted(links, key=lambda z: z['_off'])))
+    ctx.check(okc, R, lab + '|link_node|count', ln, 'node_count++ next to each of the %d link site(s)' % len(links), 'node_count++ is not paired with every link site (%d increments, %d links)' % (len(incs), len(links)))
+    pname = newp.get('name')
+    par = [x for x in walk(lbody_) if x.get('kind') == 'BinaryOperator' and x.get('opcode') == '=' and canon(x['inner'][0]) == '%s.parent' % pname]
+    dims = [nf(x['inner'][1]) for x in walk(lbody_) if x.get('kind') == 'BinaryOperator' and x.get('opcode') == '=' and canon(x['inner'][0]) == '%s.dim' % pname]
     import re as _re2
     pv = {canon(p_['inner'][1]) for p_ in par}
-    okpd = len(par) >= 1 and len(pv) == 1 and len(dims) == len(par) and all(_re2.match(r'^\(\(1 \+ %s\.dim\) %% ' % _re2.escape(next(iter(pv))), d) for d in dims)
-    ctx.check(okpd and (len(par) == 2 or slot_descent), R, lab + '|link_node|parent-dim', ln, 'child gets parent = n and dim = (n.dim + 1) mod dimensions', 'parent/dim initialisation changed: %s' % dims)
+    okpd = len(par) >= 1 and len(pv) == 1 and len(dims) == len(par) and all(_re2.match(r'^\(\(1 \+ %s\.dim\) %% ' % _re2.escape(next(iter(pv))), d) or _re2.match(r'^\(\(%s\.dim \+ 1\) %% ' % _re2.escape(next(iter(pv))), d) for d in dims)
+    # every non-root link site has a parent/dim initialisation in its block
+    def may_be_root(lhs):
+        l0 = strip(lhs)
+        if l0.get('kind') == 'MemberExpr':
+            return l0.get('name') == 'root'
+        rd_ = ref_decl(l0['inner'][0]) if l0.get('kind') == 'UnaryOperator' else ref_decl(l0)
+        v_ = slot_vars.get((rd_ or {}).get('id'))
+        return v_ is not None and any(y.get('kind') == 'MemberExpr' and y.get('name') == 'root' for y in walk(v_))
+    nonroot = [l_ for l_ in links if not may_be_root(l_['inner'][0])]
+    okpd = okpd and all(any(enclosing(p_, ('CompoundStmt',)) is enclosing(l_, ('CompoundStmt',)) for p_ in par) for l_ in nonroot)
+    ctx.check(okpd, R, lab + '|link_node|parent-dim', ln, 'child gets parent = n and dim = (n.dim + 1) mod dimensions', 'parent/dim initialisation changed: %s' % dims)
     decs = [x for x in walk(body_of(dn)) if x.get('kind') == 'UnaryOperator' and x.get('opcode') == '--' and canon(x['inner'][0]) == 'this.node_count']
     dels = [x for x in walk(body_of(dn)) if x.get('kind') == 'CXXDeleteExpr']
     ctx.check(len(decs) == 1 and len(dels) == 1 and enclosing(decs[0], LOOPS) is None and enclosing(dels[0], LOOPS) is None and canon(kids(dels[0])[0]) == 'n', R, lab + '|delete_node|count-delete', dn, 'exactly one node_count-- and one delete per deletion', 'delete_node decrements %d time(s) and deletes %d time(s)' % (len(decs), len(dels)))
